@@ -44,11 +44,12 @@ second is modelled and proved only — the sandbox runs as uid 0, for which a mo
 file is written but retention / the final clear do nothing — modelled (`saveD`, `clearRun`).
 
 Entries of the directory that are themselves DIRECTORIES (`Env.isDir`, a predicate on names; the code never creates
-or removes a directory inside the checkpoint directory, so it is constant during a run): the three scans filter by
-NAME only, so an own-named sub-directory `checkpoint_<pid>_<n>.bin/` is counted by retention, can be "the latest", and
-is a candidate of clear; but `remove_file` fails on it (`.ok()` ⇒ it stays, also after a successful run),
-`File::create` fails on it (`save_checkpoint` = `Err`, logged) and `read_to_end` fails on it (`load_checkpoint` =
-`Err`, logged). `cleanupD` / `clearD` / `saveD` / `readD` below are the store functions of `Model/Checkpoint.lean`
+or removes a directory inside the checkpoint directory, so it is constant during a run): the three scans take
+REGULAR FILES only (`entry.path().is_file()`, since the C12 fix "checkpoint directory scans take regular files only"),
+so an own-named sub-directory `checkpoint_<pid>_<n>.bin/` is not counted by retention, is never "the latest" and is
+not a candidate of clear (it stays, also after a successful run); `File::create` still fails on it (`save_checkpoint`
+= `Err`, logged). (Before that fix the scans filtered by name only: the directory was counted, could be "the latest"
+and made `load_checkpoint` fail — `Checkpoint.Legacy.latestWithDirs`.) `cleanupD` / `clearD` / `saveD` / `readD` below are the store functions of `Model/Checkpoint.lean`
 with exactly this difference; with `isDir = fun _ => false` they are those functions (`Proofs/CheckpointRun.lean`).
 
 NOT modelled: I/O errors on single regular files (`File::create` / `write_all` / `sync_all` / `remove_file` failing
@@ -127,14 +128,18 @@ def nodeType : Node P → Bytes
 /-- an own-named REGULAR file: what `remove_file` can actually remove among the candidates of the scans -/
 def ownFile (isDir : Name → Bool) (pid : Bytes) (name : Name) : Bool := isOwn pid name && !isDir name
 
-/-- `cleanup_old_checkpoints`: the doomed names are chosen among ALL own-named entries (the scans look at names only);
-    `remove_file(..).ok()` then removes the regular files among them and fails silently on a sub-directory -/
+/-- `cleanup_old_checkpoints`: the doomed names are chosen among the own-named REGULAR FILES (the scans skip
+    sub-directories); `remove_file(..).ok()` then removes them -/
 def cleanupD (isDir : Name → Bool) (max : Option Nat) (pid : Bytes) (fs : FS) : FS :=
   match max with
   | none => fs
   | some m =>
-    let d := doomed (isOwn pid) (sortKey (pfx pid)) m (names fs)
-    fs.filter (fun f => !(d.contains f.1 && !isDir f.1))
+    let d := doomed (ownFile isDir pid) (sortKey (pfx pid)) m (names fs)
+    fs.filter (fun f => !d.contains f.1)
+
+/-- `find_latest_checkpoint` (after a successful `read_dir`): the newest own-named regular file -/
+def latestD (isDir : Name → Bool) (pid : Bytes) (fs : FS) : Option Name :=
+  latestWith (ownFile isDir pid) (sortKey (pfx pid)) true fs
 
 /-- `clear_checkpoints` (after a successful `read_dir`): every own-named regular file goes, sub-directories stay -/
 def clearD (isDir : Name → Bool) (pid : Bytes) (fs : FS) : FS := clearWith (ownFile isDir pid) fs
@@ -182,7 +187,7 @@ deriving DecidableEq, Repr
 def recover (env : Env) (cfg : Config) (pid : Bytes) (fs : FS) : Except RecFail RecLog :=
   if !cfg.autoRecover then .ok .off
   else if !env.dirListable then .error .readDir
-  else match latest true pid fs with
+  else match latestD env.isDir pid fs with
     | none => .ok .nothing
     | some name =>
       match readD env.isDir fs name with
